@@ -12,6 +12,7 @@ import (
 	"strings"
 
 	"verif/internal/ev"
+	mcisco "verif/internal/model/cisco"
 	"verif/internal/run"
 )
 
@@ -82,8 +83,19 @@ func checkConv(id, typ, tier, replay string) int {
 			seeds = append(seeds, base+int64(i))
 		}
 	}
-	env.Parallel(len(seeds), func(i int) {
-		g := genPair(typ, seeds[i])
+	// Hand-made pairs that once showed a defect, judged by the same monitors.
+	fixed := fixedPairs(typ)
+	if replay != "" {
+		fixed = nil
+	}
+	env.Parallel(len(seeds)+len(fixed), func(i int) {
+		var g *genCase
+		if i >= len(seeds) {
+			g = fixed[i-len(seeds)]
+			rep.Count("fixed_pairs", 1)
+		} else {
+			g = genPair(typ, seeds[i])
+		}
 		o := runConv(env, g, false)
 		live := ""
 		if (typ == "nsx" || typ == "panos") && i%8 == 3 && replay == "" {
@@ -161,4 +173,36 @@ func writeConvReplay(dir string, g *genCase, o *convOutcome) {
 // the matchers of triaged findings (see known_findings.json).
 func convFindingKey(typ, key string, g *genCase, o *convOutcome) string {
 	return key
+}
+
+// fixedPairs: reproducers of repaired defects that the generators reach
+// only rarely, kept as inputs of the convergence monitors.
+func fixedPairs(typ string) []*genCase {
+	mk := func(name, device, target string) *genCase {
+		g := &genCase{Type: typ, Seed: -1, Edits: []string{"repro:" + name}, Device: device,
+			Files: map[string]string{"router": target}}
+		g.model = mcisco.Load(typ, device)
+		g.target = &ciscoTarget{dev: mcisco.Load(typ, target)}
+		return g
+	}
+	switch typ {
+	case "ios":
+		intf := "interface Ethernet1\n ip address 10.0.0.1 255.255.255.0\n ip access-group A in\n"
+		return []*genCase{
+			// fix 'move inside block not ignored if a remark stands at the
+			// new position': first run deletes the extra line and ignores
+			// the move, second compare must be clean.
+			mk("ios-move-inside-block-before-remark",
+				"ip access-list extended A\n permit ip 10.1.1.0 0.0.0.255 any\n deny tcp any host 10.1.1.2 eq 81\n remark r1\n deny udp any any eq 80\n"+
+					" deny tcp any eq 81 host 10.1.1.2 eq 80\n permit udp host 10.1.1.1 eq 80 host 10.1.1.3 eq 81\n deny ip any any\n"+intf,
+				"ip access-list extended A\n permit ip 10.1.1.0 0.0.0.255 any\n deny tcp any eq 81 host 10.1.1.2 eq 80\n remark r1\n deny udp any any eq 80\n"+
+					" permit udp host 10.1.1.1 eq 80 host 10.1.1.3 eq 81\n deny ip any any\n"+intf),
+			mk("ios-line-of-block-behind-remark-listed-first",
+				"ip access-list extended A\n permit ip 10.1.1.0 0.0.0.255 any\n remark r1\n deny udp any any eq 80\n"+
+					" deny tcp any eq 81 host 10.1.1.2 eq 80\n permit udp host 10.1.1.1 eq 80 host 10.1.1.3 eq 81\n deny ip any any\n"+intf,
+				"ip access-list extended A\n permit ip 10.1.1.0 0.0.0.255 any\n deny tcp any eq 81 host 10.1.1.2 eq 80\n remark r1\n deny udp any any eq 80\n"+
+					" permit udp host 10.1.1.1 eq 80 host 10.1.1.3 eq 81\n deny ip any any\n"+intf),
+		}
+	}
+	return nil
 }
